@@ -59,6 +59,8 @@ type Event struct {
 	Total int `json:"total"`
 	// Expired: a read that found its deadline already in the past (not one of the script's reads).
 	Expired bool `json:"expired,omitempty"`
+	// Truncated: the transport had more bytes ready in this burst than the caller's buffer could take.
+	Truncated bool `json:"truncated,omitempty"`
 }
 
 // Clock is a shared logical clock so transport events and hook events can be ordered.
@@ -69,6 +71,8 @@ func (c *Clock) Tick() int64 { return c.n.Add(1) }
 
 // Conn is a scripted transport. It implements net.Conn and io.ReadWriteCloser.
 type Conn struct {
+	// NoAddr: LocalAddr/RemoteAddr are not known to this connection (nil).
+	NoAddr bool
 	mu     sync.Mutex
 	S      Script
 	Clock  *Clock
@@ -101,12 +105,14 @@ func NewConn(s Script, clk *Clock) *Conn {
 		clk = &Clock{}
 	}
 	var inner error = ErrInjected
-	if connCtr.Add(1)%2 == 0 {
+	k := connCtr.Add(1)
+	noAddr := k%3 == 0 // every third connection does not know its addresses
+	if k%2 == 0 {
 		// every second connection's I/O failure is of the "connection timed out" kind: a permanent error whose
 		// Timeout() method says true (ETIMEDOUT after retransmissions gave up) - not a poll deadline
 		inner = permanentTimeout{}
 	}
-	return &Conn{S: s, Clock: clk, unblock: make(chan struct{}), injErr: &net.OpError{Op: "read", Net: "verif", Err: inner}}
+	return &Conn{S: s, Clock: clk, NoAddr: noAddr, unblock: make(chan struct{}), injErr: &net.OpError{Op: "read", Net: "verif", Err: inner}}
 }
 
 func kindErr(k string) error {
@@ -187,6 +193,7 @@ func (c *Conn) Read(p []byte) (int, error) {
 	var n int
 	var err error
 	sleep := 0
+	truncated := false
 	if c.Net && c.rdl.IsZero() && !c.closed {
 		empty := c.step >= len(c.S.Steps) && (c.S.Tail == "" || c.S.Tail == "deadline" || c.S.Tail == "deadline-wrapped")
 		if c.step < len(c.S.Steps) {
@@ -213,6 +220,7 @@ func (c *Conn) Read(p []byte) (int, error) {
 		}
 		if n > len(p) {
 			n = len(p)
+			truncated = true
 		}
 		copy(p, c.S.Reply[c.pos:c.pos+n])
 		c.pos += n
@@ -231,6 +239,7 @@ func (c *Conn) Read(p []byte) (int, error) {
 		c.idle++
 	}
 	c.log("read", n, err, p[:n])
+	c.Log[len(c.Log)-1].Truncated = truncated
 	idle := c.idle
 	c.mu.Unlock()
 	if sleep > 0 {
@@ -327,8 +336,20 @@ type addr string
 func (a addr) Network() string { return "verif" }
 func (a addr) String() string  { return string(a) }
 
-func (c *Conn) LocalAddr() net.Addr  { return addr("local") }
-func (c *Conn) RemoteAddr() net.Addr { return addr("remote") }
+func (c *Conn) LocalAddr() net.Addr {
+	if c.NoAddr {
+		return nil
+	}
+	return addr("local")
+}
+
+// RemoteAddr: net.Conn promises the remote address only "if known"; connections that do not know it (NoAddr) return nil.
+func (c *Conn) RemoteAddr() net.Addr {
+	if c.NoAddr {
+		return nil
+	}
+	return addr("remote")
+}
 func (c *Conn) SetDeadline(t time.Time) error {
 	c.mu.Lock()
 	c.rdl, c.wdl = t, t
